@@ -325,6 +325,11 @@ def run_dag(case, p=None):  # noqa: C901, PLR0912, PLR0915
         sp = _quiet(p.subpipeline, inputs=set(given), output_names=set(s_objs))
     except Exception as e:  # noqa: BLE001
         cx.raised("sub-call", e, cx.cls, front, "subpipeline()")
+    if sp is not None and cx.cls == "reject":
+        # the request is subpipeline(I, S) itself: it is what has to be refused (not only a later call of the returned pipeline)
+        cx.add({"kind": "accepted-not-computable", "entry": "subpipeline()"},
+               f"subpipeline(): {cx.where()} is not computable (missing {sorted(front)}) but a pipeline was returned")
+        sp = None
     if sp is not None:
         for s in s_objs:
             sn = list(s) if isinstance(s, tuple) else [s]
